@@ -42,6 +42,8 @@ def tv(ctx, spec, trace, tag):
 def window_in_other(rec, i):
     if rec.get("tpe") != "pack" or rec.get("fault") != "swap":
         return False
+    if i == 0:      # the restore read: any blob window that also frames a blob in the substituted pack
+        return any(w in rec.get("olayout", []) for w in rec["layout"])
     return rec["layout"][i - 1] in rec.get("olayout", [])
 
 
